@@ -280,6 +280,7 @@ int cmdWorker(int argc, char** argv) {
     if (g_audit.offences && g_ws.auditFirst.empty()) g_ws.auditFirst = "index " + std::to_string(i) + ": " + g_audit.first;
     for (auto& kv : ctx.faults) { g_ws.faultFired[kv.first] += kv.second; if (kv.second) ++g_ws.faultRuns[kv.first]; }
     for (auto& kv : ctx.probes) g_ws.probes[kv.first] += kv.second;
+    for (auto& kv : ctx.knownHits) { g_ws.knownHits[kv.first] += kv.second; g_ws.known += kv.second; }
     if (g_ws.states.size() > (1u << 20)) {
       std::sort(g_ws.states.begin(), g_ws.states.end());
       g_ws.states.erase(std::unique(g_ws.states.begin(), g_ws.states.end()), g_ws.states.end());
